@@ -181,6 +181,14 @@ func (fi *FnInfo) boolPhiFacts(v ssa.Value, val bool, depth int) []Atom {
 			if constant.BoolVal(cst.Value) != val {
 				continue
 			}
+		} else if pb := ph.Block().Preds[i]; len(pb.Instrs) > 0 {
+			// the incoming value is the very condition the predecessor branched on (a flag set in
+			// two steps: `bad := a; if !bad { bad = b }`): its value on this edge is known
+			if iff, isIf := pb.Instrs[len(pb.Instrs)-1].(*ssa.If); isIf && iff.Cond == e && pb.Succs[0] != pb.Succs[1] {
+				if (pb.Succs[0] == ph.Block()) != val {
+					continue
+				}
+			}
 		}
 		feasible = i
 		n++
